@@ -27,13 +27,14 @@ StClasses == {"1xx", "200", "204", "304", "other"}
 Lens == {"unknown", "0", "thr-1", "thr", "thr+1"}
 Thrs == {"0", "1", "small", "default", "max"}
 Codings == {"chunked", "identity", "trailers", "other"}
-Qs == {"absent", "1", "0.5", "0.001", "0", "bad"}
+Qs == {"absent", "1", "0.5", "0.5009", "0.001", "0.0005", "0", "bad"}
 
 Supported(c) == c \in {"chunked", "identity"}
 
-\* q in thousandths; "bad" (malformed) is open: either the default 1 or the entry is ignored
-QVals(q) == CASE q = "absent" -> {1000} [] q = "1" -> {1000} [] q = "0.5" -> {500}
-              [] q = "0.001" -> {1} [] q = "0" -> {0} [] q = "bad" -> {1000, -1}
+\* q in ten-thousandths (a weight is compared as the number it is: 0.5009 is more than 0.5, 0.0005 is more than 0);
+\* "bad" (not a number at all, or not a finite one) is open: either the default 1 or the entry is ignored
+QVals(q) == CASE q = "absent" -> {10000} [] q = "1" -> {10000} [] q = "0.5" -> {5000} [] q = "0.5009" -> {5009}
+              [] q = "0.001" -> {10} [] q = "0.0005" -> {5} [] q = "0" -> {0} [] q = "bad" -> {10000, -1}
 
 ThrNum(c) == CASE c.thr = "0" -> 0 [] c.thr = "1" -> 1 [] c.thr = "small" -> 7
                [] c.thr = "default" -> 32768 [] c.thr = "max" -> 2000000000    \* stands for usize::MAX
@@ -68,8 +69,8 @@ Choose(c) ==
 
 -----------------------------------------------------------------------------
 \* code-shaped transcription (response.rs / util::parse_header_value)
-CodeQ(q) == CASE q = "absent" -> 1000 [] q = "1" -> 1000 [] q = "0.5" -> 500 [] q = "0.001" -> 1
-              [] q = "0" -> 0 [] q = "bad" -> 1000
+CodeQ(q) == CASE q = "absent" -> 10000 [] q = "1" -> 10000 [] q = "0.5" -> 5000 [] q = "0.5009" -> 5009 [] q = "0.001" -> 10
+              [] q = "0.0005" -> 5 [] q = "0" -> 0 [] q = "bad" -> 10000
 
 \* position of entry i after a stable sort by descending q
 Rank(te, i) == Cardinality({j \in 1..Len(te) : CodeQ(te[j].q) > CodeQ(te[i].q) \/ (CodeQ(te[j].q) = CodeQ(te[i].q) /\ j < i)})
